@@ -301,7 +301,7 @@ func TestC06(t *testing.T) {
 	r := ev.Open(t, "C06")
 	defer r.Close(t)
 	r.Rule("constants: ~95 valid UTF-8 texts (quotes, backslashes, escape look-alikes, control characters, JSON look-alikes, HTML, astral code points, separators) x name/summary/content/preferredUsername/source.content " +
-		"of Object, Actor, Activity, Collection and Link, and of an Object with neither id nor type (alone and as the second member of a tag list) x {single untagged, single tagged, 2-language map, maps holding the untagged default value first / last} x 5 codec entry pairs; random: rapid.String and an escape-biased alphabet, length 1..200, every text-bearing " +
+		"of Object, Actor, Activity, Collection and Link, and of an Object with neither id nor type (alone and as the second member of a tag list) x {single untagged, single tagged, 2-language map, maps holding the untagged default value first / last} x 5 codec entry pairs (every eighth cell again with DefaultLang = en); random: rapid.String and an escape-biased alphabet, length 1..200, every text-bearing " +
 		"property of every type, maps of 2..4 distinct tags. Oracle: text bytes after decode == bytes before encode, set of (tag,text) pairs preserved for maps (JSON: a lone tagged value may return untagged). " +
 		"value-pairs: the same texts and forms as a language list on its own through NaturalLanguageValues' MarshalJSON/UnmarshalJSON, encoding/json and GobEncode/GobDecode. " +
 		"non-trivial = text holds a backslash, quote, control or non-BMP character or is a JSON/escape look-alike; distinct by property + form + codec + text")
@@ -334,6 +334,16 @@ func TestC06(t *testing.T) {
 						}
 						done++
 						ds := c06Check(p, nl, ci)
+						if done%8 == 3 {
+							// every eighth cell once more with the package's configurable default language set to the tag the forms use
+							saved := ap.DefaultLang
+							ap.DefaultLang = "en"
+							for _, d := range c06Check(p, nl, ci) {
+								d.Key += " default-lang"
+								ds = append(ds, d)
+							}
+							ap.DefaultLang = saved
+						}
 						cls := c06TextClass(s)
 						r.Case(cell, cls != "plain", "constants class="+cls, "constants codec="+c06Codecs[ci].name, "constants property="+p.Field)
 						if done%1499 == 0 {
